@@ -300,7 +300,7 @@ func (e *Engine) globalNonNil() map[string]bool {
 					inf = &info{ok: true}
 					st[r] = inf
 				}
-				good := fn.Synthetic != "" && fn.Name() == "init"
+				good := isInitFunc(fn)
 				if inf.seen {
 					good = false // more than one store
 				}
@@ -310,7 +310,18 @@ func (e *Engine) globalNonNil() map[string]bool {
 					if cf, ok := v.Call.Value.(*ssa.Function); ok && cf.Pkg != nil {
 						full := cf.Pkg.Pkg.Path() + "." + cf.Name()
 						if full != "errors.New" && full != "fmt.Errorf" {
-							good = false
+							// or a callee whose contract promises a non-nil result
+							nonNil := false
+							if fc := e.contractOf(cf); fc != nil {
+								for _, en := range fc.Ensures {
+									if strings.TrimSpace(en.Text) == "r0 != nil" {
+										nonNil = true
+									}
+								}
+							}
+							if !nonNil {
+								good = false
+							}
 						}
 					} else {
 						good = false
@@ -344,7 +355,7 @@ func (e *Engine) initOnlyGlobals() map[string]bool {
 	written := map[string]bool{}
 	all := map[string]bool{}
 	for fn := range ssautil.AllFunctions(e.prog) {
-		inInit := fn.Synthetic != "" && fn.Name() == "init"
+		inInit := isInitFunc(fn)
 		for _, b := range fn.Blocks {
 			for _, ins := range b.Instrs {
 				// any use of the global's address other than load/store (escapes) counts as a write
@@ -427,6 +438,25 @@ func (e *Engine) mayReach(fn *ssa.Function, targets map[string]bool) bool {
 			if isRepoPkg(funcPkgPath(cur)) {
 				reach[funcPkgPath(cur)+"::"+funcTarget(cur)] = true
 			}
+			// Functions under a contract with an explicit frame (pure or a modifies list without
+			// "*") are not looked into: their frame is what callers rely on (checked for verified
+			// functions, assumed for trusted/extern ones).
+			if fc := e.contractOf(cur); fc != nil && cur != fn {
+				explicit := true
+				for _, m := range fc.Modifies {
+					if m == "*" || strings.HasPrefix(m, "pointee(") {
+						explicit = false
+					}
+				}
+				if explicit {
+					continue
+				}
+			}
+			if !isRepoPkg(funcPkgPath(cur)) && cur != fn {
+				// external code is not traversed (A-ext-callback: libraries call back into /repo only
+				// through closures handed to them, which are followed from their creator)
+				continue
+			}
 			if n := cg.Nodes[cur]; n != nil {
 				for _, out := range n.Out {
 					if !seen[out.Callee.Func] {
@@ -484,4 +514,12 @@ func (e *Engine) preservedBy(caller *ssa.Function, ins ssa.Instruction, static *
 		}
 	}
 	return keep
+}
+
+// isInitFunc: the synthetic package initialiser or a declared func init().
+func isInitFunc(fn *ssa.Function) bool {
+	if fn.Parent() != nil || fn.Signature.Recv() != nil {
+		return false
+	}
+	return (fn.Synthetic != "" && fn.Name() == "init") || strings.HasPrefix(fn.Name(), "init#")
 }
